@@ -1026,7 +1026,7 @@ theorem iterBwd_sim {s : LstS α} {l : Lst α} (h : s.Abs l) : s.iterBwd = some 
     rw [this, hi]
 
 /-- every operation of a history: the store-level step is the list-level step -/
-theorem step_sim [BEq α] [Inhabited α] {s : LstS α} {l : Lst α} (h : s.Abs l) (op : Op α) :
+theorem step_sim [BEq α] [ZeroIsValue α] {s : LstS α} {l : Lst α} (h : s.Abs l) (op : Op α) :
     (s.step op).1.Abs (l.step op).1 ∧ (s.step op).2 = (l.step op).2 := by
   cases op with
   | push x => exact push_sim h x
@@ -1037,7 +1037,14 @@ theorem step_sim [BEq α] [Inhabited α] {s : LstS α} {l : Lst α} (h : s.Abs l
   | set i x => exact set_sim h i x
   | rem x => exact rem_sim h x
   | concat ys => exact concat_sim h ys
-  | resize n => exact resize_sim h n
+  | resize n =>
+    have hn : s.nitems = l.nitems := by obtain ⟨cells, _, _, h2, h3⟩ := h; rw [h3, h2]
+    have hcond : (!ZeroIsValue.zeroOk α && decide (n > s.nitems)) = l.rawGrow (.resize n) := by
+      simp only [Lst.rawGrow, hn]
+    simp only [LstS.step, Lst.step, hcond]
+    by_cases hc : l.rawGrow (.resize n) = true
+    · rw [if_pos hc, if_pos hc]; exact ⟨(resize_sim h n).1, rfl⟩
+    · rw [if_neg hc, if_neg hc]; exact resize_sim h n
   | sort f => exact ⟨h, rfl⟩
   | assign ys b => exact assign_sim h ys b
 
